@@ -22,7 +22,7 @@ RULE = ('patterns: token strings of length 1-3 over {a,A,b,.,*,?,[ab],[!a],[} pl
         '/home/u/w2/[ab], /home/u/w/a?, ""} x name subsets (<=2 quick, <=3 thorough) of {a,A,ab,b,a*,[ab],a.b,.a,"a "}, each name stored from '
         '/home/u/w, /home/u/w2, /mnt/v1/p (in .Trash-uid, which is a symbolic link to a relocated directory) and /mnt/v1/q (in .Trash/uid); non-trivial = at least one entry matched and at least one did not; distinct = (pattern shape, outcome)')
 TOKENS = ['a', 'A', 'b', '.', '*', '?', '[ab]', '[!a]', '[']
-FULL = ['a ', ' a', '/home/u/w/a ', '/mnt/v1/q/a', '/home/u/w/a/', '/home/u//w/a', '/home/u/w/./a', '/home/u/w/b/../a', '/home/u/w2/*/../a', '/mnt/v?/p/a', '/mnt/[v]1/p/ab', '/mnt/v1/p/.a', '.a', '.?', '/home/u/w/a', '/home/*/a', '/*', '/mnt/v1/*', '/home/u/w/?', '/home/u/w2/[ab]', '/home/u/w/a?', '']
+FULL = ['e\u0301', '\u00e9', '?\u0301', 'a ', ' a', '/home/u/w/a ', '/mnt/v1/q/a', '/home/u/w/a/', '/home/u//w/a', '/home/u/w/./a', '/home/u/w/b/../a', '/home/u/w2/*/../a', '/mnt/v?/p/a', '/mnt/[v]1/p/ab', '/mnt/v1/p/.a', '.a', '.?', '/home/u/w/a', '/home/*/a', '/*', '/mnt/v1/*', '/home/u/w/?', '/home/u/w2/[ab]', '/home/u/w/a?', '']
 NAMES = ['a', 'A', 'ab', 'b', 'a*', '[ab]', 'a.b', '.a', 'a ']
 ALT_REAL = '/mnt/v1/.Trash-0real'          # /mnt/v1/.Trash-0 is a symbolic link to this directory (a relocated trash)
 DIRS = [('/home/u/w', scen.HOME_TRASH, ''), ('/home/u/w2', scen.HOME_TRASH, '_1'), ('/mnt/v1/p', ALT_REAL, ''),
@@ -72,6 +72,10 @@ def run_case(c):
         loc = '/home/u/w/' + n
         scen.add_trashed(W, scen.HOME_TRASH, n + '_2', quote(loc, '/'), '2021-02-02T00:00:00', payload='file', tag=loc + ' again')
         ents.append((scen.HOME_TRASH, n + '_2', loc))          # the same path trashed a second time: both must go / both must stay
+    deep = '/home/u/' + '/'.join(['\u00e9' * 90] * 9)
+    for nm, loc in (('deep-a', deep + '/a'), ('nfd', '/home/u/w3/e\u0301'), ('nfc', '/home/u/w3/\u00e9')):
+        scen.add_trashed(W, scen.HOME_TRASH, nm, quote(loc, '/'), '2021-03-03T00:00:00', payload='file', tag=nm)
+        ents.append((scen.HOME_TRASH, nm, loc))
     W.dir('/home/u/elsewhere')
     for n in c['names']:
         W.link('/home/u/w2/' + n, '/home/u/elsewhere/zz')          # what lives at the original path today is irrelevant
